@@ -448,14 +448,12 @@ class RawAlgorithmsMixIn:
 
         # left shifting x_data and y_data if necessary
 
-        mask = Ellipsis
         while True:
-            mask = numpy.where( abs(y_data[0, mask]) <= 1e-8)
+            # boolean mask over the directions and elements whose leading coefficient (still) vanishes
+            mask = abs(y_data[0]) <= 1e-8
 
-            if len(mask[0]) == 0:
+            if not mask.any():
                 break
-            elif len(mask) == 1:
-                mask = mask[0]
 
             x_data[:D-1, mask] = x_data[1:, mask]
             x_data[D-1,  mask] = 0.
